@@ -225,21 +225,22 @@ func (o *ObjectStorage) NewEncodedObject() plumbing.EncodedObject {
 // SetEncodedObject stores the given EncodedObject.
 func (o *ObjectStorage) SetEncodedObject(obj plumbing.EncodedObject) (plumbing.Hash, error) {
 	h := obj.Hash()
-	o.Objects[h] = obj
 
 	switch obj.Type() {
 	case plumbing.CommitObject:
-		o.Commits[h] = o.Objects[h]
+		o.Commits[h] = obj
 	case plumbing.TreeObject:
-		o.Trees[h] = o.Objects[h]
+		o.Trees[h] = obj
 	case plumbing.BlobObject:
-		o.Blobs[h] = o.Objects[h]
+		o.Blobs[h] = obj
 	case plumbing.TagObject:
-		o.Tags[h] = o.Objects[h]
+		o.Tags[h] = obj
 	default:
+		// nothing is stored for an object that is refused
 		return h, ErrUnsupportedObjectType
 	}
 
+	o.Objects[h] = obj
 	return h, nil
 }
 
